@@ -280,8 +280,33 @@ static int objid_of(void* p) {
     return id;
 }
 
+// last events of the run (thread, operation kind) for the rendered trace of a violation
+struct TraceEv { int thread; int kind; };
+static TraceEv g_trace[256];
+static uint64_t g_trace_n = 0;
+static const char* kind_name(int k) {
+    switch (k) {
+        case 1: return "create";
+        case 2: return "exit";
+        case 3: return "join";
+        case 4: return "lock";
+        case 5: return "trylock";
+        case 6: return "unlock";
+        case 7: return "wait";
+        case 8: return "timedwait";
+        case 9: return "signal";
+        case 10: return "broadcast";
+        case 11: return "futex-wait";
+        case 12: return "futex-wake";
+        case 14: return "sleep";
+        case 20: return "io/yield";
+        default: return "op";
+    }
+}
+
 static void log_op(int kind, void* obj) {
     ++g_event_seq;
+    g_trace[g_trace_n++ % 256] = TraceEv{g_cur, kind};
     static const bool trace = __real_getenv("VERIF_TRACE") != nullptr;
     if (trace) { fprintf(stderr, "[ev] run %" PRIu64 " t%d k%d\n", g_info.index, g_cur, kind); }
     // Only (thread, operation kind) is hashed. Object identities are left out on purpose: first-seen numbering
@@ -384,6 +409,29 @@ static void print_result_line(bool fatal_flag) {
     for (const auto& kv : g_res.fields) { o += ",\"" + json_escape(kv.first) + "\":" + kv.second; }
     if (!g_res.notes.empty()) { o += ",\"notes\":\"" + json_escape(g_res.notes) + "\""; }
     if (g_res.violation) {
+        // the last events before the violation, run-length coded: "thread:op xN"
+        std::string tr;
+        const uint64_t from = g_trace_n > 200 ? g_trace_n - 200 : 0;
+        std::string last;
+        int rep = 0;
+        auto flush = [&]() {
+            if (!last.empty()) {
+                tr += last;
+                if (rep > 1) { tr += " x" + std::to_string(rep); }
+                tr += "; ";
+            }
+        };
+        for (uint64_t k = from; k < g_trace_n; ++k) {
+            const TraceEv& e = g_trace[k % 256];
+            std::string nm = "T" + std::to_string(e.thread);
+            if (e.thread >= 0 && static_cast<size_t>(e.thread) < g_ths.size() && g_ths[static_cast<size_t>(e.thread)]->name[0]) {
+                nm += std::string{"("} + g_ths[static_cast<size_t>(e.thread)]->name + ")";
+            }
+            const std::string cur = nm + ":" + kind_name(e.kind);
+            if (cur == last) { ++rep; } else { flush(); last = cur; rep = 1; }
+        }
+        flush();
+        o += ",\"trace\":\"" + json_escape(tr) + "\"";
         o += ",\"tape\":[";
         for (int s = 0; s < S_N; ++s) {
             if (s) { o += ","; }
@@ -1126,7 +1174,7 @@ int worker_main(int argc, char** argv, const RunFn& run_fn) {
         g_res = Result{};
         g_tape.reset_replay();
         g_wall_start_ns = real_now_ns();
-        g_hash = 1469598103934665603ULL; g_sig = g_hash; g_steps = 0; g_event_seq = 0; g_choice_points = 0; g_max_enabled = 0; g_switches = 0; g_now = 0;
+        g_hash = 1469598103934665603ULL; g_sig = g_hash; g_steps = 0; g_event_seq = 0; g_choice_points = 0; g_max_enabled = 0; g_switches = 0; g_now = 0; g_trace_n = 0;
         run_fn(info);
         if (g_active) { end_run(); }
         print_result_line(false);
@@ -1140,7 +1188,7 @@ int worker_main(int argc, char** argv, const RunFn& run_fn) {
         g_res = Result{};
         g_tape.reset_explore(info.seed, info.index);
         g_wall_start_ns = real_now_ns();
-        g_hash = 1469598103934665603ULL; g_sig = g_hash; g_steps = 0; g_event_seq = 0; g_choice_points = 0; g_max_enabled = 0; g_switches = 0; g_now = 0;
+        g_hash = 1469598103934665603ULL; g_sig = g_hash; g_steps = 0; g_event_seq = 0; g_choice_points = 0; g_max_enabled = 0; g_switches = 0; g_now = 0; g_trace_n = 0;
         if (g_tape.record_fd >= 0) {
             char b[64];
             int n = snprintf(b, sizeof(b), "# index %" PRIu64 "\n", info.index);
